@@ -40,6 +40,15 @@ CLAIMS = {
  'C13': dict(text='For fully populated values the harness runs Validate(&v) and Parse(toMap(v), &fresh) on the real library; TLC validates both traces against the machine and compares the two logged results '
                   '(path, code, type, message, resulting value). PostTransforms that fail are excluded from pairs (their issues depend on the visit order by design).',
              technique='TLC trace validation of paired real executions (Trace_Exec PairVerdicts) + TLC model checking of ZogExec in both modes', ref='5 C13'),
+ 'C07': dict(engine='ZogPools', text='TLC explores every call history (<=2 calls quick, <=3 thorough) over the call alphabet x every pool hand-off (a pool is a bag; Get takes any element or a fresh object) x GC drops, '
+                  'checking NoStaleRead (no field read was written by another call) and ExclusiveOwner. Every history of that length (emitted by TLC) plus random longer ones is replayed on the real library; after each, every call kind is '
+                  'probed and its complete projected result must equal the same call on cleared pools; all Get/Put/return events are validated by TLC against the ownership discipline (Trace_Pools).',
+             technique='TLC model checking of ZogPools + replay of TLC-emitted histories with differential probes + TLC trace validation of pool events', ref='5 C07, 3.5',
+             note='Trusted: the projection of call results; sync.Pool modelled as a bag (per-P caches not modelled); GC disabled while tracing. Bounds: <=3 calls per history in the model, 14 call kinds in the harness.'),
+ 'C08': dict(engine='ZogPools', text='TLC explores every interleaving of the pool operations of two goroutines (ExclusiveOwner, NoStaleRead). Goroutines run random calls concurrently on shared package-level schemas; the Get/Put events, '
+                  'ordered by a sequence number taken inside the ownership interval, are validated by TLC (Trace_Pools), every result is compared with its sequential result, and the same episodes run free under the Go race detector.',
+             technique='TLC model checking of ZogPools with 2 goroutines + TLC trace validation of concurrent pool events + race detector stress with sequential oracle', ref='5 C08',
+             note='Data-race freedom under the Go memory model is outside TLA+: it is observed by the race detector on the executions driven. Schedules are sampled, not enumerated, on the real code.'),
 }
 NA_REASON = 'check not built yet (work in progress; DESIGN.md section 11 gives the build order)'
 checks = []
@@ -54,7 +63,8 @@ for p in props:
 m = dict(version=1, setup_cmd='bin/setup',
          hooks=dict(guard='verif', enable='go build -tags verif (harness module replaces github.com/Oudwins/zog with /repo)',
                     baseline_off_cmd='cd /repo && go test -vet=off -count=1 ./...', source_commits=hook_commits, add_only=True),
-         engines=[dict(name='ZogExec', path='/verif/spec/ZogExec.tla', serves_properties=[p for p in props if p in CLAIMS and CLAIMS[p].get('engine', 'ZogExec') == 'ZogExec'],
+         engines=[dict(name='ZogPools', path='/verif/spec/ZogPools.tla', serves_properties=['C07', 'C08'], kind_free_text='TLA+ model of pooled objects, call histories and goroutines (TLC) + history replay + TLC trace validation of pool events'),
+                  dict(name='ZogExec', path='/verif/spec/ZogExec.tla', serves_properties=[p for p in props if p in CLAIMS and CLAIMS[p].get('engine', 'ZogExec') == 'ZogExec'],
                        kind_free_text='TLA+ traversal machine (TLC) + Go conformance harness + TLC trace validation')],
          checks=checks,
          not_applicable=[dict(property_id=p, reason=NA_REASON) for p in props if p not in CLAIMS],
